@@ -15,6 +15,7 @@ Source-level sugar (assembled to their documented expansion):
   ['setvarn', name, count]             @= name count
   ['loadvar', name] ['sizevar', name]  @name   @#name
   ['macro', name, argnames, body_template, [argvals]]   definition + one call
+  ['macrocall', name, [argvals]]       a further call of an earlier macro
   ['comptime_push', body]              push ~ { body }
   ['comment', words]                   contributes no bytes
 """
@@ -25,6 +26,14 @@ from . import isa
 
 class AsmError(Exception):
     pass
+
+
+MACROS: dict = {}      # name -> defining node (reset per program by callers)
+
+
+def assemble_program(nodes) -> bytes:
+    MACROS.clear()
+    return assemble(nodes)
 
 
 def assemble(nodes) -> bytes:
@@ -96,7 +105,12 @@ def asm_node(n) -> bytes:
     if t == 'sizevar':
         return asm_node(['op', 'OP_READ_CACHE_SIZE', n[1].encode()])
     if t == 'macro':
+        MACROS[n[1]] = n
         return assemble(expand_macro(n))
+    if t == 'macrocall':
+        # ['macrocall', name, argvals]: another call of a macro defined earlier
+        d = MACROS[n[1]]
+        return assemble(expand_macro(['macro', d[1], d[2], d[3], n[2]]))
     if t == 'comptime_push':
         return isa.push(assemble(n[1]))
     if t == 'comment':
